@@ -1,3 +1,5 @@
 import MpirProofs.Lemmas.Base
 import MpirProofs.Lemmas.Kernels
+import MpirProofs.Lemmas.Life
 import MpirProofs.Props.C03
+import MpirProofs.Props.C04
